@@ -9,7 +9,7 @@ for h in /verif/harmless/*.diff; do
   case $f in
     overlay.go) props="C01 C02 C16";; dials.go) props="C04 C05 C07 C08 C09 C01";; deep_copy.go) props="C02 C03 C16";;
     sources/env/*) props="C11 C14 C16";; transform/flatten*) props="C10 C11 C16";; parse/*) props="C15 C16";;
-    cb_mgr.go) props="C06 C08 C04 C09";; sourcewrap/*) props="C07 C20 C08";; *) props="C16";;
+    cb_mgr.go) props="C06 C08 C04 C09";; tagformat/caseconversion/*) props="C19 C16";; transform/*) props="C10 C16";; sourcewrap/*) props="C07 C20 C08";; *) props="C16";;
   esac
   git apply $h || { echo "$n: PATCH DOES NOT APPLY"; rc=1; continue; }
   for p in $props; do
